@@ -51,6 +51,8 @@ type Net struct {
 	OnOwn func(node int, msg consensus.Message)
 	// OnTimeout is called before a timeout is fired at a node.
 	OnTimeout func(node int, ti consensus.VerifTimeoutInfo)
+	// After is called after every primitive (delivery, own-queue drain, timeout).
+	After func()
 	// WriteWAL makes the primitives log to the node's WAL like receiveRoutine does.
 	WriteWAL bool
 	// Trace collects a textual log of the schedule (for replay files and evidence samples).
@@ -119,6 +121,9 @@ func (n *Net) Deliver(to, from int, msg consensus.Message) {
 	}
 	n.Steps++
 	nd.CS.VerifHandleMsg(mi)
+	if n.After != nil {
+		n.After()
+	}
 }
 
 // DrainOwn processes the node's own queued messages (proposal, parts, votes) like receiveRoutine does
@@ -143,6 +148,9 @@ func (n *Net) DrainOwn(i int) []consensus.Message {
 		}
 		n.Steps++
 		nd.CS.VerifHandleMsg(mi)
+		if n.After != nil {
+			n.After()
+		}
 		out = append(out, mi.Msg)
 	}
 }
@@ -166,6 +174,9 @@ func (n *Net) FireTimeout(i int) bool {
 	n.tracef("timeout n%d %d/%d/%v", i, ti.Height, ti.Round, ti.Step)
 	n.Steps++
 	nd.CS.VerifHandleTimeout(ti)
+	if n.After != nil {
+		n.After()
+	}
 	n.DrainOwn(i)
 	return true
 }
